@@ -100,6 +100,19 @@ def documents(tier):
         defs.append(d)
         for argv in (["--help"], ["-h"], [], ["-a"], ["run"], ["run", "-h"], ["--alph"]):
             cases.append({"def": d["id"], "argv": argv})
+    # generic trees beyond the acceptors (`any`, `pure`, nested groups, adjacent commands): hostile vectors, compared across
+    # the builds only
+    from checks.c04 import wild_defs, vocabulary
+    wrnd = random.Random(SEED + 2001)
+    for d in wild_defs(SEED + 2002, 30 if tier == "quick" else 200):
+        defs.append(d)
+        voc = vocabulary(d) + ["1", "x", "", "@any", "@", "--", "-"]
+        for _ in range(12 if tier == "quick" else 40):
+            k = wrnd.choice([1, 2, 2, 3, 4])
+            argv = [wrnd.choice(voc) for _ in range(k)]
+            if wrnd.random() < 0.3:
+                argv.append("")               # a trailing empty string is an item like any other
+            cases.append({"def": d["id"], "argv": argv})
     return defs, cases
 
 
